@@ -258,21 +258,47 @@ package decoder
 //@   assigns nothing
 //@   loop 1: invariant old(cursor) <= cursor && cursor < len(buf) && wsRun(buf, old(cursor), cursor)
 //@   loop 1: decreases len(buf) - cursor
-//@   loop 2: invariant old(cursor) <= cursor && cursor < len(buf) && buf[cursor] != 0
+//@   loop 2: invariant start <= cursor && cursor < len(buf) && buf[cursor] != 0 && old(cursor) <= start && wsRun(buf, old(cursor), start) && (buf[start] == '-' || digit(buf[start]))
 //@   loop 2: decreases len(buf) - cursor
-//@   loop 3: invariant start <= cursor && cursor < len(buf) && buf[cursor] != 0 && old(cursor) <= start && wsRun(buf, old(cursor), start) && (buf[start] == '-' || digit(buf[start]))
-//@   loop 3: decreases len(buf) - cursor
+
+// the skippers are validators that keep nothing: strings, members and elements are checked as they are skipped
+//@ func skipString(buf, cursor) (c, err)
+//@   props C06 C05 C20 C11
+//@   requires bufOK(buf, cursor) && buf[cursor] == '"'
+//@   let body := ptrOf(buf) + cursor + 1
+//@   define strRun(body, 0) == 0 && (forall k :: 0 <= k ==> strRun(body, k + 1) == strStep(strRun(body, k), M(body + k)))
+//@   ensures err == nil ==> cursor + 2 <= c && c < len(buf) && buf[c-1] == '"' && strRun(body, c - cursor - 2) == 0
+//@   assigns nothing
+//@   loop 1: invariant old(cursor) <= cursor && cursor < len(buf) - 1 && strRun(body, cursor - old(cursor)) == 0
+//@   loop 1: decreases len(buf) - cursor
+//@   loop 1: let it := cursor
+//@   loop 2: invariant 0 <= i && i <= 4 && it < cursor && cursor < len(buf) - 1 && strRun(body, cursor - old(cursor)) == (i == 4 ? 0 : 2 + i)
+//@   loop 2: decreases 4 - i
+
+//@ func skipNestedValue(buf, cursor, depth) (c, err)
+//@   props C06 C05 C20 C11
+//@   requires bufOK(buf, cursor)
+//@   ensures err == nil ==> cursor < c && c < len(buf)
+//@   assigns nothing
+
+//@ func skipObjectMember(buf, cursor, depth) (c, err)
+//@   props C06 C05 C20 C11
+//@   requires bufOK(buf, cursor)
+//@   ensures err == nil ==> cursor < c && c < len(buf)
+//@   assigns nothing
+
+//@ func skipObjectRest(buf, cursor, depth) (c, err)
+//@   props C06 C05 C20 C11
+//@   requires bufOK(buf, cursor)
+//@   ensures err == nil ==> cursor < c && c < len(buf)
+//@   assigns nothing
+//@   loop 1: invariant old(cursor) <= cursor && cursor < len(buf)
 
 //@ func skipObject(buf, cursor, depth) (c, err)
 //@   props C20 C11 C06 C05
 //@   requires bufOK(buf, cursor)
 //@   ensures err == nil ==> cursor < c && c < len(buf)
 //@   assigns nothing
-//@   loop 1: invariant old(cursor) <= cursor && cursor < len(buf)
-//@   loop 1: decreases len(buf) - cursor
-//@   loop 1: let outer := cursor
-//@   loop 2: invariant outer <= cursor && cursor < len(buf) && buf[cursor] != 0
-//@   loop 2: decreases len(buf) - cursor
 
 //@ func skipArray(buf, cursor, depth) (c, err)
 //@   props C20 C11 C06 C05
@@ -280,10 +306,6 @@ package decoder
 //@   ensures err == nil ==> cursor < c && c < len(buf)
 //@   assigns nothing
 //@   loop 1: invariant old(cursor) <= cursor && cursor < len(buf)
-//@   loop 1: decreases len(buf) - cursor
-//@   loop 1: let outer := cursor
-//@   loop 2: invariant outer <= cursor && cursor < len(buf) && buf[cursor] != 0
-//@   loop 2: decreases len(buf) - cursor
 
 // (contract of stringDecoder.decodeByte: see the section on JSON string bodies at the end of this file)
 
@@ -920,7 +942,7 @@ package decoder
 //@ func (*Stream).skipWhiteSpace(s) (c)
 //@   props C06 C09
 //@   requires wfStream(s)
-//@   ensures wfStream(s) && s.cursor >= old(s.cursor) && !ws(c)
+//@   ensures wfStream(s) && s.cursor >= old(s.cursor) && !ws(c) && (c != 0 ==> c == s.buf[s.cursor])
 //@   assigns all
 //@   loop 1: invariant wfStream(s) && s.cursor >= old(s.cursor) && p == ptrOf(s.buf)
 
@@ -963,11 +985,64 @@ package decoder
 //@   ensures s.cursor == old(s.cursor) - 1 && b == s.buf && c == s.cursor && p == ptrOf(s.buf)
 //@   assigns Stream.cursor
 
-// The value skippers of stream mode (skipObject, skipArray, skipValue) are NOT under contract: after a
-// refill behind a backslash they advance once more without knowing that the window has grown, which
-// is safe only if the scanner never stands on the sentinel while the buffer is not marked full - an
-// invariant the NUL-cutting readBuf does not let us state (see wfStream). Covered by the bounded
-// chunking stand-in only.
+// The value skippers of stream mode (rewritten as validators together with the buffer-mode ones): safety
+// and the window invariant. Every step is "advance, refill until the byte under the cursor is not
+// the end-of-window mark, look at it", so the cursor never passes the sentinel.
+//@ func (*Stream).more(s) (ok)
+//@   props C06 C09
+//@   requires wfStream(s)
+//@   ensures wfStream(s) && s.cursor == old(s.cursor) && (ok ==> s.buf[s.cursor] != 0)
+//@   ensures forall k :: 0 <= k && k < s.cursor ==> s.buf[k] == old(s.buf[k])
+//@   assigns all
+//@   loop 1: invariant wfStream(s) && s.cursor == old(s.cursor) && (forall k :: 0 <= k && k < s.cursor ==> s.buf[k] == old(s.buf[k]))
+
+//@ func (*Stream).skipString(s) (err)
+//@   props C06 C09
+//@   requires wfStream(s) && s.buf[s.cursor] == '"'
+//@   ensures err == nil ==> wfStream(s) && s.cursor > old(s.cursor)
+//@   assigns all
+//@   loop 1: invariant wfStream(s) && s.cursor >= old(s.cursor) && s.buf[s.cursor] != 0
+//@   loop 2: invariant wfStream(s) && s.cursor > old(s.cursor) && s.buf[s.cursor] != 0 && 0 <= i && i <= 4
+
+//@ func (*Stream).skipValue(s, depth) (err)
+//@   props C06 C09
+//@   requires wfStream(s)
+//@   ensures err == nil ==> wfStream(s)
+//@   assigns all
+//@   loop 1: invariant wfStream(s) && start <= s.cursor && 0 <= start && s.buf[s.cursor] != 0
+
+//@ func (*Stream).skipNestedValue(s, depth) (err)
+//@   props C06 C09
+//@   requires wfStream(s)
+//@   ensures err == nil ==> wfStream(s)
+//@   assigns all
+
+//@ func (*Stream).skipObjectMember(s, depth) (err)
+//@   props C06 C09
+//@   requires wfStream(s)
+//@   ensures err == nil ==> wfStream(s)
+//@   assigns all
+
+//@ func (*Stream).skipObjectRest(s, depth) (err)
+//@   props C06 C09
+//@   requires wfStream(s)
+//@   ensures err == nil ==> wfStream(s)
+//@   assigns all
+//@   loop 1: invariant wfStream(s)
+
+//@ func (*Stream).skipObject(s, depth) (err)
+//@   props C06 C09
+//@   requires wfStream(s)
+//@   ensures err == nil ==> wfStream(s)
+//@   assigns all
+
+//@ func (*Stream).skipArray(s, depth) (err)
+//@   props C06 C09
+//@   requires wfStream(s)
+//@   ensures err == nil ==> wfStream(s)
+//@   assigns all
+//@   loop 1: invariant wfStream(s)
+
 
 // ---------------------------------------------------------------- UnmarshalJSON dispatch (C06)
 // The decoder is installed for types that implement one of the two UnmarshalJSON forms; which one is
